@@ -340,7 +340,12 @@ func (h *HS) Start() {
 			}
 			simrt.WaitUntil("comp:handshake", func() bool { return bytes.Contains(out.Tap, []byte("</handshake>")) || h.S.ctx.Err() != nil })
 			if h.S.err == nil {
-				_, h.S.err = io.WriteString(h.S.conn, `<handshake/>`)
+				// both spellings of the empty acknowledgement occur in the wild
+				ack := `<handshake/>`
+				if rc.Ch.Chance("workload", 1, 2) {
+					ack = `<handshake></handshake>`
+				}
+				_, h.S.err = io.WriteString(h.S.conn, ack)
 			}
 			h.S.done, h.S.retStep = true, rc.S.Steps
 		})
